@@ -125,6 +125,18 @@ def run_one(ck, prog):
         ctx = prog.ctx(fn)
         calls = [bb for bb, t in ctx.cfg.calls(lambda t: (t.get("callee") or "").endswith("unix_str::buf_find"))]
         ck.ob("C11.3", "find-calls-searcher", len(calls) == 1, fn=fn["path"], detail=f"buf_find call sites in find: {len(calls)}")
+        # the search is skipped (None without calling the searcher) only for a needle LONGER than the haystack
+        if calls:
+            early = [b["id"] for b in fn["blocks"] if b["id"] in ctx.cfg.live_blocks() and not b.get("cleanup") and
+                     any(st["k"] == "assign" and st["dst"]["l"] == 0 and not st["dst"].get("p") and st["rv"]["k"] == "agg" and st["rv"].get("variant") == "None" for st in b["stmts"]) and
+                     b["id"] in ctx.cfg.reachable_from(0, avoid={calls[0]})]
+            for eb in early:
+                facts = panics.dominating_facts(ctx, eb)
+                strict = any(f[0] == "cmp" and ((f[1] == "Gt" and "p2" in canon(f[2]) and "p1" in canon(f[3]) and "p1" not in canon(f[2])) or
+                                                (f[1] == "Lt" and "p1" in canon(f[2]) and "p2" in canon(f[3]) and "p2" not in canon(f[2]))) for f in facts)
+                empty_needle = any(f[0] == "cmp" and f[1] == "Eq" and 0 in (fold(f[2]), fold(f[3])) for f in facts) or any(f[0] == "truth" and f[2] is True and "is_empty" in show(f[1]) for f in facts)
+                ck.ob("C11.3", "find|search-skipped-only-for-a-longer-needle", strict or empty_needle, fn=fn["path"], site=ctx.site(eb),
+                      detail="find answers None without searching under a condition other than `other.len() > self.len()`: a needle exactly as long as the haystack (the string itself) would never be found")
         for bb in calls:
             needle = ctx.args(bb)[1]
             ok = False
